@@ -30,6 +30,25 @@ pub fn make_enum(e: &hir::Enum, derives: &[String]) -> Item<TokenStream> {
     })
 }
 
+/// `to_string()` of a variant is its wire value; request code relies on it for query, header, cookie and path inputs.
+pub fn make_enum_display(e: &hir::Enum) -> Item<TokenStream> {
+    let name = e.name.to_rust_struct();
+    let arms = e.iter_safe_variant_names().map(|(name, value)| {
+        let ident = name.to_rust_struct();
+        quote! { Self::#ident => #value }
+    });
+    Item::Block(quote! {
+        impl std::fmt::Display for #name {
+            fn fmt(&self, f: &mut std::fmt::Formatter<'_>) -> Result<(), std::fmt::Error> {
+                let value: &str = match *self {
+                    #(#arms),*
+                };
+                write!(f, "{}", value)
+            }
+        }
+    })
+}
+
 impl ToRustCode for Enum<TokenStream> {
     fn to_rust_code(self) -> TokenStream {
         let Enum {
